@@ -45,9 +45,17 @@ class AmbiguousIncludeError(Exception):
                            (path, leaf, second or "missing", first or "missing"))
 
 
+class IncludeDepthError(Exception):
+    def __init__(self, path, limit):
+        Exception.__init__(self, "file %s: includes are nested more than %d files deep" % (path, limit))
+
+
 class SameNameError(Exception):
     def __init__(self, name, first, second):
         Exception.__init__(self, "two different files named '%s' are used: %s and %s" % (name, first, second))
+
+
+INCLUDE_DEPTH_LIMIT = 64
 
 
 def _directories_of(path):
@@ -74,6 +82,8 @@ class FileProcessor(object):
         '''Directories searched before include_dirs for the includes of the file being processed'''
         self.includes_of = {}
         self.including = None
+        self.heights = {}
+        '''Absolute paths are keys, values are the lengths of the longest include chains starting at the files'''
         '''Absolute paths are keys, values are the includes of that file: (leaf, absolute path it was found at)'''
 
     def __call__(self, path):
@@ -142,5 +152,9 @@ class FileProcessor(object):
             result = self.process_content(content, path, lambda leaf: self.process_leaf(leaf))
         finally:
             self.including = outer
+        """ a limit on the file itself (not on the interpreter's stack): it does not depend on what was parsed before """
+        self.heights[abspath] = 1 + max([self.heights.get(found, 0) for _, found in self.includes_of[abspath]] or [0])
+        if self.heights[abspath] > INCLUDE_DEPTH_LIMIT:
+            raise IncludeDepthError(path, INCLUDE_DEPTH_LIMIT)
         self.files[abspath] = result
         return result
